@@ -162,6 +162,13 @@ def run(ctx):
         for k in gen.divisors(w):
             if 1 < k < w or rng.random() < 0.3:
                 one_case(ctx, lines, pend, w, k, rng.random() < 0.5, gen.gen_work(rng, nlayers=2), None)
+    # worlds beyond 257 ranks (rank numbers outside CPython's small-int cache, more than one byte): the views of the
+    # highest ranks and of rank 256/257 are compared with the model, every rank's view goes through the oracle
+    huge = [288, 320, 512] if ctx.tier == 'thorough' else [rng.choice([264, 288])]
+    for w in huge:
+        ks = gen.divisors(w)
+        for k in ([1, ks[len(ks) // 2], w] if ctx.tier == 'thorough' else [rng.choice([1, w]), ks[len(ks) // 2]]):
+            one_case(ctx, lines, pend, w, k, rng.random() < 0.5, gen.gen_work(rng, nlayers=2), {0, 255, 256, 257, 258, w - 1})
     ctx.exhaustive = True
     ctx.notes.append(f'enumerated every (world<= {wmax}, k | world, colocate) exhaustively; cost dicts random')
     # degenerate but legal cost dictionaries: every cost zero (all ties)
